@@ -63,6 +63,12 @@ mod identify_schema {
     include!(concat!(env!("OUT_DIR"), "/identify.rs"));
 }
 
+/// Verification hooks: the wire type of the identify message.
+#[cfg(feature = "verif")]
+pub mod verif {
+    pub use super::identify_schema::Identify as SchemaIdentify;
+}
+
 /// Identify configuration.
 pub struct Config {
     /// Protocol name.
